@@ -749,16 +749,28 @@ class Engine:
         raise Unsupported(f"unknown name {name} at line {node.lineno}")
 
     def e_JoinedStr(self, st, node):
-        # f-string: evaluate the pieces (for exceptions), value is opaque
+        # f-string: evaluate the pieces (for exceptions); the value is an
+        # opaque non-empty string; it is a *fresh name* if a piece is
+        from .models import FRESHNAME, PJOIN
+        fresh_parts = []
         for part in node.values:
             if isinstance(part, ast.FormattedValue):
                 try:
-                    self.eval(st, part.value)
+                    v = self.eval(st, part.value)
+                    if isinstance(v, VU):
+                        fresh_parts.append(FRESHNAME(v.t))
                 except Unsupported:
                     pass
         t = st.fresh("fstr", U)
         st.assume(t != NONE_U)
         st.assume(TRUTHY(t))
+        if fresh_parts:
+            st.assume(FRESHNAME(t) == z3.Or(fresh_parts))
+            if "DSTATE" in st.ghost:
+                # a name containing a fresh uuid does not exist anywhere (A-STD)
+                par = z3.Const("par!fn", U)
+                st.assume(z3.Implies(FRESHNAME(t), z3.ForAll(
+                    [par], st.ghost["DSTATE"][PJOIN(par, t)] == 0)))
         return VU(t)
 
     def e_Tuple(self, st, node):
